@@ -107,6 +107,23 @@ int main(int argc, char **argv) {
             if (!got) break;
             vh_seg++; vh_step = 0;
             mark = vh_ledger_mark();
+            if (inj_at || inj_from) {
+                /* constructor under allocation failure: NULL and nothing left allocated, or a working object */
+                for (long ck = 1; ck <= 16; ck++) {
+                    long m0 = vh_ledger_mark();
+                    vh_where = "ctor";
+                    vh_call_begin();
+                    if (inj_at) vh_fail_at = ck; else vh_fail_from = ck;
+                    T = qhashtbl((size_t) R, ts ? QHASHTBL_THREADSAFE : 0);
+                    long nf = vh_failed;
+                    vh_call_end();
+                    int cok = T != NULL;
+                    if (T) { T->free(T); T = NULL; }
+                    vh_emit("{\"op\":\"ctor\",\"k\":0,\"v\":0,\"inj\":%ld,\"nfail\":%ld,\"ok\":%s,\"live\":%ld}", ck, nf, vh_bool(cok), vh_live_since(m0));
+                    if (nf == 0) break;
+                }
+            }
+
             T = qhashtbl((size_t) R, ts ? QHASHTBL_THREADSAFE : 0);
             if (!T) return 2;
             vh_emit("{\"op\":\"reset\",\"k\":0,\"v\":0,\"range\":%d}", (int) T->range);
@@ -119,6 +136,7 @@ int main(int argc, char **argv) {
         vh_where = op;
         int inject = (inj_at || inj_from) && (!strcmp(op, "put") || !strcmp(op, "get") || !strcmp(op, "walk"));
         for (long kk = 1;; kk++) {
+            if (inject && kk > 300) inject = 0;      /* give up injecting: finish the operation normally */
             unsigned char vb0[64]; size_t vn = mkval(vb0, v);
             char *name = NULL; unsigned char *vb = vh_malloc(vn ? vn : 1);
             memcpy(vb, vb0, vn);
@@ -180,7 +198,7 @@ int main(int argc, char **argv) {
             if (full) for (int i = 0; i < realR; i++) { if (i) vh_bprintf(&b, ","); chain_json(&b, T->slots[i]); }
             vh_bprintf(&b, "],\"lkd\":%ld,\"ovl\":%ld,\"bf\":%ld}", (vh_locks - vh_unlocks) - lkb, vh_overlap_copies - ovb, vh_badfree - bfb);
             vh_bflush(&b);
-            if (!inject || nfail == 0 || ok || kk > 64) break;
+            if (!inject || nfail == 0 || ok ) break;
         }
     }
     vh_close();
